@@ -50,6 +50,44 @@ def oracle(mins, maxs, r):
     return None
 
 
+def big_boxes(ctx):
+    """boxes with 2^16 rows and more (a construction that switches method with the size of the space is only exercised there)"""
+    out = [([-2, 0, 3, 0], [13, 15, 18, 15]), ([0, -7], [299, 292]), ([5], [70004])]
+    if ctx.tier != "quick":
+        out += [([0] * 16, [1] * 16), ([-1, 0, 0], [62, 63, 31]), ([0, 0, 0, 0, 0], [9, 9, 9, 9, 10]), ([0, 1, 2], [127, 128, 129])]
+    return out
+
+
+def big_oracle(mins, maxs, r):
+    import numpy as np
+    if "error" in r:
+        return f"raised {r['error']}: {r.get('message')}"
+    t = np.load(r["file"])
+    dims = [hi - lo + 1 for lo, hi in zip(mins, maxs)]
+    n = int(np.prod(dims))
+    rows = np.arange(n)
+    want = np.empty((n, len(dims)), dtype=np.int64)
+    stride = n
+    for j, d in enumerate(dims):           # row-major: the FIRST coordinate varies slowest
+        stride //= d
+        want[:, j] = mins[j] + (rows // stride) % d
+    sp = t["space"]
+    if sp.shape != want.shape or not np.array_equal(sp, want):
+        bad = int(np.nonzero(np.any(sp != want, axis=1))[0][0]) if sp.shape == want.shape else None
+        return f"{n}-row space is not the row-major enumeration of the box" + (f" (row {bad} is {sp[bad].tolist()}, expected {want[bad].tolist()})" if bad is not None else f" (shape {sp.shape})")
+    if not np.array_equal(t["own"], rows):
+        bad = int(np.nonzero(t["own"] != rows)[0][0])
+        return f"index_fn(space[{bad}]) = {int(t['own'][bad])}"
+    near = np.clip(t["probes"].astype(np.int64), np.array(mins), np.array(maxs)) - np.array(mins)
+    wi = np.zeros(len(near), dtype=np.int64)
+    for j, d in enumerate(dims):
+        wi = wi * d + near[:, j]
+    if not np.array_equal(t["idx"], wi):
+        bad = int(np.nonzero(t["idx"] != wi)[0][0])
+        return f"index_fn({t['probes'][bad].tolist()}) = {int(t['idx'][bad])}, expected {int(wi[bad])} (nearest box point)"
+    return None
+
+
 def run(ctx, build):
     cases, exhaustive_dims = boxes(ctx)
     nproc = 8
@@ -68,6 +106,13 @@ def run(ctx, build):
         why = oracle(list(k[0]), list(k[1]), results[k])
         if why:
             viols.append({"key": f"box:{list(k[0])}:{list(k[1])}", "what": why, "input": {"mins": list(k[0]), "maxs": list(k[1])}})
+    bigs = big_boxes(ctx)
+    bres = core.run_workers(ctx, [{"kind": "c19_big", "cases": [b], "seed": ctx.seed, "out": str(ctx.scratch / f"c19big_{i}")} for i, b in enumerate(bigs)], nproc=4)
+    for (mins, maxs), o in zip(bigs, bres):
+        r = o[0] if isinstance(o, list) else o
+        why = big_oracle(mins, maxs, r)
+        if why:
+            viols.append({"key": f"bigbox:{mins}:{maxs}", "what": why, "input": {"mins": mins, "maxs": maxs, "big": True}})
     if build["model_ok"]:
         terms, tkeys = [], []
         for k in keys:
@@ -85,7 +130,7 @@ def run(ctx, build):
             corr.append({"what": "model and create_range_space disagree", "input": {"mins": list(tkeys[i][0]), "maxs": list(tkeys[i][1])}})
     nontrivial = {k for k in keys if any(m != 0 for m in k[0]) and len(results[k].get("space", [])) > 1}
     cov = {
-        "evaluations": len(keys),
+        "evaluations": len(keys) + len(bigs), "boxes_with_at_least_65536_rows": len(bigs),
         "distinct_nontrivial": len(nontrivial),
         "probe_vectors": sum(len(r.get("probes", [])) for r in results.values()),
         "rule": f"distinct (mins, maxs) boxes with bounds in [{LO},{HI}]: all boxes of dimension {exhaustive_dims}, seeded samples of the remaining dimensions up to 4; "
@@ -117,6 +162,10 @@ def replay(ctx, build, data):
     inp = data.get("violation", {}).get("input")
     if not isinstance(inp, dict):
         return {"fails": False, "note": "no concrete input in the replay file"}
+    if inp.get("big"):
+        o = core.run_worker(ctx, [{"kind": "c19_big", "cases": [(inp["mins"], inp["maxs"])], "seed": ctx.seed, "out": str(ctx.scratch / "c19big_replay")}])[0]
+        why = big_oracle(inp["mins"], inp["maxs"], o[0] if isinstance(o, list) else o)
+        return {"fails": bool(why), "why": why}
     out = core.run_worker(ctx, [{"kind": "c19_spaces", "cases": [(inp["mins"], inp["maxs"])]}])[0]
     why = oracle(inp["mins"], inp["maxs"], out[0]) if isinstance(out, list) else str(out)
     return {"fails": bool(why), "why": why}
